@@ -87,6 +87,8 @@ type c18FlowCase struct {
 	Stagger   bool
 	// Script "random": the generated release script. "settings-release": the connection window is opened, MOSN uses up
 	// the small initial stream windows, then a larger INITIAL_WINDOW_SIZE is the only release the streams get.
+	// "header-interleave": all windows wide open, many staggered streams, half of them with header blocks of several
+	// frames, so that header blocks are written while other streams are sending DATA.
 	Script string
 
 	// onPanic is set per run: a panic in MOSN's sending path (it runs on the harness goroutine that called
@@ -95,7 +97,7 @@ type c18FlowCase struct {
 }
 
 func (cs *c18FlowCase) String() string {
-	return fmt.Sprintf("case=%d dir=%s script=%s initial_window=%d max_frame=%d bodies=%v use_stream=%v stagger=%v", cs.No, cs.Dir, cs.Script, cs.W0, cs.MaxFrame, cs.Sizes, cs.UseStream, cs.Stagger)
+	return fmt.Sprintf("case=%d dir=%s script=%s initial_window=%d max_frame=%d bodies=%v header_pads=%v use_stream=%v stagger=%v", cs.No, cs.Dir, cs.Script, cs.W0, cs.MaxFrame, cs.Sizes, cs.Pads, cs.UseStream, cs.Stagger)
 }
 
 type c18PStream struct {
@@ -204,6 +206,18 @@ func (p *c18Peer) readLoop() {
 			p.mu.Lock()
 			p.dead = err
 			p.logf("read: %v", err)
+			// the reference framer itself refuses what MOSN wrote (as opposed to the socket ending)
+			_, ce := err.(xh2.ConnectionError)
+			_, se := err.(xh2.StreamError)
+			if (ce || se || err == xh2.ErrFrameTooLarge) && !p.closing {
+				detail := fmt.Sprint(p.fr.ErrorDetail())
+				class := "other"
+				if strings.Contains(detail, "expected CONTINUATION") {
+					class = "header-block-interleaved"
+				}
+				p.logf("x/net framer: %v: %s", err, detail)
+				p.violate("mosn-output-rejected-by-xnet/"+class, fmt.Sprintf("x/net's Framer refuses the frame sequence MOSN wrote: %v: %s", err, detail))
+			}
 			p.cond.Broadcast()
 			p.mu.Unlock()
 			return
@@ -583,6 +597,18 @@ func c18RunPeerScript(p *c18Peer, rng *lab.Rand, start func(i int) bool) (verdic
 	tiny := rng.PickInt(0, 3, 8, 20)
 	maxSteps := tiny + rng.Range(5, 40)
 	changes := 0
+	if cs.Script == "header-interleave" {
+		maxSteps = 0
+		p.sendConnUpdate(c18MaxWindow)
+		for i := range cs.Sizes { // the streams with long header blocks start while the long bodies are in flight
+			if !startOne(i) {
+				return "peer write failed"
+			}
+			if i >= 3 {
+				time.Sleep(time.Duration(200+rng.Intn(1500)) * time.Microsecond) // schedule shaping only
+			}
+		}
+	}
 	if cs.Script == "settings-release" {
 		maxSteps = 0
 		p.sendConnUpdate(total + int64(rng.PickInt(0, 1, 1000)))
@@ -600,6 +626,9 @@ func c18RunPeerScript(p *c18Peer, rng *lab.Rand, start func(i int) bool) (verdic
 		if res != "ok" {
 			if c18Violated(p) {
 				return "violated"
+			}
+			if c18Dead(p) {
+				return "closed"
 			}
 			return "MOSN did not use the initial window within watchdog"
 		}
@@ -744,6 +773,8 @@ func c18RunPeerScript(p *c18Peer, rng *lab.Rand, start func(i int) bool) (verdic
 				return "stalled-until-nudge"
 			case res == "timeout" && c18Violated(p):
 				return "violated"
+			case res == "timeout" && c18Dead(p):
+				return "closed"
 			case res == "timeout":
 				return "MOSN did not use the released window within watchdog"
 			}
@@ -847,6 +878,12 @@ func c18RunPeerScript(p *c18Peer, rng *lab.Rand, start func(i int) bool) (verdic
 		return "violated"
 	}
 	return "ok"
+}
+
+func c18Dead(p *c18Peer) bool {
+	p.mu.Lock()
+	defer p.mu.Unlock()
+	return p.dead != nil
 }
 
 func c18Violated(p *c18Peer) bool {
@@ -1235,6 +1272,31 @@ func c18Flow(c *lab.Ctx) {
 			cs.UseStream = rng.Chance(1, 4)
 			cs.Stagger = rng.Chance(1, 3)
 			cs.Script = "random"
+			if i%25 == 10 || i%25 == 23 { // one of each direction per 25 cases
+				cs.Script = "header-interleave"
+				cs.W0 = c18MaxWindow
+				// A client splits its header block at the peer's MAX_FRAME_SIZE, so that has to be small to see CONTINUATION
+				// frames at all. A server splits at 16384 whatever the peer says; there a large MAX_FRAME_SIZE lets a sender
+				// take a large allowance at once and write it as a run of DATA frames.
+				cs.MaxFrame = 16384
+				if cs.Dir == "response" {
+					cs.MaxFrame = 1<<24 - 1
+				}
+				cs.Stagger = true
+				cs.UseStream = false
+				ns = rng.Range(10, 16)
+				cs.Sizes = make([]int, ns)
+				cs.Salts = rng.Bytes(ns)
+				cs.Pads = make([]int, ns)
+				for k := range cs.Sizes {
+					if k < 4 { // long bodies that keep DATA flowing
+						cs.Sizes[k] = maxBody/2 + rng.Intn(maxBody/2)
+					} else { // header blocks of 3..4 frames
+						cs.Sizes[k] = rng.Range(0, 3000)
+						cs.Pads[k] = rng.Range(33000, 60000)
+					}
+				}
+			}
 			if i%25 == 6 || i%25 == 19 { // one of each direction per 25 cases
 				cs.Script = "settings-release"
 				cs.W0 = int64(rng.PickInt(0, 1, 100, 1000))
@@ -1302,6 +1364,9 @@ func c18Flow(c *lab.Ctx) {
 				pads += p.padsChecked
 				neg := p.negative > 0
 				ch := p.settingsChanges
+				if p.violated {
+					verdict = "violated"
+				}
 				if verdict == "closed" && !p.violated {
 					p.violate("connection-closed-by-mosn", fmt.Sprintf("the connection ended (%v) before the bodies were complete in an exchange that is valid on the peer's side", p.dead))
 					verdict = "violated"
